@@ -25,7 +25,7 @@ Hypotheses that appear by name:
   that temporary (`C03_next_skips_user_breakpoint_counterexample`).
 -/
 namespace BsVerif.Step
-open BsVerif.Bp BsVerif.Mem
+open BsVerif.Bp BsVerif.Mem BsVerif.Lines
 
 /-! ## stepi -/
 
@@ -240,6 +240,9 @@ theorem C03_next_not_in_callee_partial (I : Info) (τ : Trace) (U : List Nat) (i
     unfold stepOver
     simp only [hi1, hfn]
     show _ ∨ _
+    have hr0 : (decide ((at' τ i).ret = 0) && decide (retPos τ i < contLand τ U (nextTemps I τ U f i) i)) = false := by
+      simp [hr]
+    simp only [hr0, Bool.false_eq_true, if_false]
     by_cases hex : τ.size ≤ contLand τ U (nextTemps I τ U f i) i
     · left; simp only [hex, if_true]; rfl
     · simp only [hex, if_false]
@@ -305,6 +308,44 @@ theorem C03_next_skips_user_breakpoint_counterexample : ¬ C03_next_stops_at_fir
                     prolog := fun _ _ => false, stmts := fun _ => [0x10, 0x14, 0x18] }
   have := h I lineTrace [0x14] 0 0 1 (by decide) (by decide)
   revert this; decide
+
+/-- the property at full strength for the case "the function returns first": `next` then stops in the caller, i.e. not in an
+activation deeper than the one it returned to -/
+def C03_next_after_return_full : Prop :=
+  ∀ (I : Info) (τ : Trace) (U : List Nat) (i : Nat), i < τ.size → (stepOver I τ U i).idx < τ.size →
+    retPos τ i ≤ (stepOver I τ U i).idx → (at' τ (stepOver I τ U i).idx).depth ≤ (at' τ (retPos τ i)).depth
+
+/-- `g(); h()` on ONE line of the caller (0x30..0x3a, line 9): position 1 is the last line of `g` (0x10), its return address
+0x35 lies in the middle of line 9, the next call enters `h` (0x20, line 5, no prologue) -/
+def twoCallsTrace : Trace := #[
+  { pc := 0x30, depth := 0, cfa := 1, ret := 0 },      -- call g
+  { pc := 0x10, depth := 1, cfa := 2, ret := 0x35 },   -- g: last line   <- `next` from here
+  { pc := 0x35, depth := 0, cfa := 1, ret := 0 },      -- back in the caller, mid-line: call h
+  { pc := 0x20, depth := 1, cfa := 3, ret := 0x3a },   -- h: first line
+  { pc := 0x3a, depth := 0, cfa := 1, ret := 0 } ]
+
+def twoCallsInfo : Info where
+  place pc := some { addr := if pc < 0x30 then pc else 0x30, path := 0, line := if pc < 0x18 then 3 else if pc < 0x30 then 5 else 9, stmt := true }
+  exact pc := if pc = 0x35 || pc = 0x3a then none
+              else some { addr := pc, path := 0, line := if pc < 0x18 then 3 else if pc < 0x30 then 5 else 9, stmt := true }
+  fn pc := some (if pc < 0x18 then 1 else if pc < 0x30 then 2 else 0)
+  prolog _ _ := false
+  stmts f := if f = 1 then [0x10] else []
+
+/-- **C03_next_after_return_counterexample.**  When `next` lands on the return address in the middle of a line of the
+caller, `step_over_any` finishes with `step_in`, which enters the NEXT call of that line: the command ends inside a callee
+of the caller (position 3, depth 1) instead of in the caller (depth 0). -/
+theorem C03_next_after_return_counterexample : ¬ C03_next_after_return_full := by
+  intro h
+  have := h twoCallsInfo twoCallsTrace [] 1 (by decide) (by decide) (by decide)
+  revert this; decide
+
+/-- every statement row of the function's own file that is inside the function's ranges, outside the prologue and
+outside inlined code gets a temporary -/
+def C03_next_temps_cover_statements_full : Prop :=
+  ∀ (f : FnRec) (pr : Rng) (r : Row), f.prolog = some pr → r ∈ f.rows.toList → r.stmt = true → some r.file = f.declFile →
+    inRanges f.ranges r.addr = true → pr.contains r.addr = false → inRanges f.inl r.addr = false → r.es = false →
+    r.addr ∈ f.stmts
 
 /-! ## step -/
 
@@ -475,6 +516,16 @@ def testFn : FnRec :=
 #guard testFn.prolog == some ⟨0x10, 0x12⟩
 #guard testFn.epilogBegin.map (·.addr) == some 0x1a
 #guard testFn.stmts == [0x12, 0x14, 0x1a]      -- prologue row, other-file row, non-stmt row, row after the epilogue address: skipped
+/-- **C03_next_temps_cover_statements_counterexample.**  The statement row at 0x1c lies inside the function, in its file,
+outside prologue and inlined code — but its address is above the address of the `epilogue_begin` row, so
+`step_over_any` skips it (`place.address > eb.address`): code placed after the exit block never gets a temporary. -/
+theorem C03_next_temps_cover_statements_counterexample : ¬ C03_next_temps_cover_statements_full := by
+  intro h
+  have := h testFn ⟨0x10, 0x12⟩
+    { addr := 0x1c, file := 1, line := 7, col := 0, stmt := true, pe := false, eb := false, es := false }
+    (by decide) (by decide) rfl rfl (by decide) (by decide) (by decide) rfl
+  revert this; decide
+
 #guard (Info.ofFns #[testFn]).fn 0x15 == some 1
 #guard ((Info.ofFns #[testFn]).place 0x15).map (·.line) == some 5
 #guard ((Info.ofFns #[testFn]).exact 0x15).isNone
